@@ -65,7 +65,7 @@ def meta(tier):
     return {
         'rule': 'symbol tables: AB in 8 values x CD in 5 x EF in 4 (undefined, literal, chain, diamond, self, 2-/3-cycles, identifiers '
                 'containing a symbol name) x definition source of each defined symbol in {ISA, -D, #define} x use-line token pairs '
-                '(written once before and once after the #define block, as `.byte t1, t2` and through `T = t1`); plus every '
+                '(written once before and once after the #define block, as `.byte t1, t2`, through `T = t1` and as the operand of `ldi b, t2`); plus every '
                 'double definition across and within sources; non-trivial = table with a chain/diamond/cycle or a use line that '
                 'mixes a symbol with an identifier containing its name; states = distinct (table, sources) pairs',
         'bounds': {'symbols': SYMS, 'values': {k: [None if v is None else ' '.join(v) for v in vs] for k, vs in VALUES.items()},
@@ -104,12 +104,15 @@ def build(table, sources, pair):
         lines.append(f'    .byte {" ".join(t1)}, {" ".join(t2)}')
         lines.append(f'T{tag} = {" ".join(t1)}')
         lines.append(f'    .byte T{tag}')
+        lines.append(f'    ldi b, {" ".join(t2)}')          # substitution inside an instruction operand as well
         if status != 'OK':
             return
         try:
             a = value_of(subst(t1, tbl), env)
             b = value_of(subst(t2, tbl), env)
-            expect.extend([a & 0xFF, b & 0xFF, a & 0xFF])
+            if not -128 <= b <= 255:
+                raise Reject('operand does not fit 8 bits')
+            expect.extend([a & 0xFF, b & 0xFF, a & 0xFF, 0xA1, b & 0xFF])
         except Reject as e:
             status, why = 'REJECT', str(e)
 
